@@ -1,12 +1,20 @@
 package vs
 
-import "time"
+import (
+	"reflect"
+	"time"
+)
 
 // After is time.After whose deadline is known to the explorer, so that
 // "the timer fires now" can be a scheduling decision.
 func After(site string, d time.Duration) <-chan time.Time {
 	if x := cur.Load(); x != nil && !x.free.Load() && x.domainOf() != nil {
 		x.registerTimer(d)
+		ch := time.After(d)
+		x.mu.Lock()
+		x.timerChans[reflect.ValueOf(ch).Pointer()] = timerChan{ch, time.Now().Add(d)}
+		x.mu.Unlock()
+		return ch
 	}
 	return time.After(d)
 }
